@@ -71,7 +71,7 @@ def expected_hops(pre, tin, amt, hops):
 
 
 def monitor(cfg, op, o):
-    out = []
+    out = list(enable_swap_monitor(cfg, op, o))
     pre = o["pre"]
     k = op[0]
     # ---- one pair per unordered token pair; lookups order-insensitive (views getPair, getAllPairsManagedAddresses)
@@ -215,10 +215,23 @@ def strip(o):
     return jsonable({k: v for k, v in o.items() if k != "pre"})
 
 
-def explore(tier, seed, model_ok=True, focus=False):
+def enable_swap_monitor(cfg, op, o):
+    """setSwapEnabledByUser - the one way a NON-owner configures and resumes a pair - may only succeed on a pair that is in
+    the ActiveNoSwaps (partial-active) state: a pair the owner paused, or an already active pair, must be refused"""
+    if op[0] == "EnableSwap" and o["ok"]:
+        pid = op[2]
+        st = (o["pre"]["pairs"].get(pid) or {}).get("state")
+        if st is not None and st != 2:
+            return [("enable-swap-on-pair-not-in-active-no-swaps", f"{op} succeeded on pair {pid} whose state was {st} (0 = inactive / paused, 1 = active)")]
+    return []
+
+
+def explore(tier, seed, model_ok=True, focus=False, mon=None, tag="C14", scale=1.0):
+    mon = mon or monitor
     ex = Exploration()
     ex.rule = RULE
     nh, nops = budgets(tier)
+    nh = max(8, int(nh * scale))
     seeds = [seed * 100000 + i for i in range(nh)]
     hist = []
     with concurrent.futures.ProcessPoolExecutor(max_workers=16) as pool:
@@ -238,14 +251,14 @@ def explore(tier, seed, model_ok=True, focus=False):
             k = nontrivial(cfg, op, o)
             if k is not None:
                 ex.nontrivial.add(k)
-            for key, what in monitor(cfg, op, o):
+            for key, what in mon(cfg, op, o):
                 ex.failures.append(dict(key=key, what=what,
-                                        replay=dict(cfg=cfg, ops=[t[0] for t in trace[:idx + 1]], seed=sd, observed=strip(o))))
+                                        replay=dict(system="router", cfg=cfg, ops=[t[0] for t in trace[:idx + 1]], seed=sd, observed=strip(o))))
         terms.append(sr.coq_history(cfg, trace))
         if len(ex.samples) < 3:
             ex.samples.append(dict(seed=sd, cfg=cfg, ops=[[op, "ok" if o["ok"] else o["msg"], o["outs"]] for op, o in trace[:12]]))
     if model_ok:
-        res = coqrun.eval_terms(IMPORTS, terms, tag="C14", per_file=max(1, min(25, len(terms) // 16 + (1 if len(terms) % 16 else 0))))
+        res = coqrun.eval_terms(IMPORTS, terms, tag=tag, per_file=max(1, min(25, len(terms) // 16 + (1 if len(terms) % 16 else 0))))
         ex.traces_validated = len(res)
         for (sd, cfg, trace), r in zip(hist, res):
             if r:
